@@ -460,7 +460,7 @@ fn sweep(_class: &'static str, valid: &[&str], r: &mut Report, k: usize, thoroug
 pub fn run(args: &Args) -> Report {
     let mut report = Report::new("C18", "fault_enumeration");
     let thorough = args.tier.is_thorough();
-    let k = args.tier.pick(2usize, 3usize);
+    let k = args.tier.pick(2usize, 5usize);
     if let Some(path) = &args.replay {
         return replay(path, report);
     }
